@@ -254,6 +254,10 @@ def materialise(case, d):
                     if all(float(x) == 0 for x in rows[-1]):
                         rows[-1][0] = "1.000"
             wt.append(rows)
+        if wr.random() < 0.3:
+            # bond weights in another unit (× 10^k): only the ratios w_ij / Σ_j w_ij enter q_lm
+            k = wr.choice([-9, -6, 5])
+            wt = [[[x if float(x) == 0 else f"{x}e{k}" for x in row] for row in fr] for fr in wt]
         case["wt"] = wt
     nf = os.path.join(d, "n.dat")
     with open(nf, "w") as f:
